@@ -29,7 +29,7 @@ META = {
         "symmetries.calc_phase_permutation",
     ],
     "floors": {
-        "quick": {"evaluations": 4000, "distinct_nontrivial": 800, "tables": {"op/tensordot": 1500, "op/transpose": 500, "op/matmul": 150, "op/trace": 100, "op/einsum": 150, "parity/odd-involved": 500, "feature/multi-label-operand": 300, "feature/nested-conjugate-labels": 40, "feature/sector-with->=6-odd-contracted": 300, "feature/sectors>2048": 30}},
+        "quick": {"evaluations": 4000, "distinct_nontrivial": 800, "tables": {"op/tensordot": 1500, "op/transpose": 500, "op/matmul": 150, "op/trace": 100, "op/einsum": 150, "parity/odd-involved": 500, "feature/multi-label-operand": 300, "feature/nested-conjugate-labels": 40, "feature/sector-with->=6-odd-contracted": 300, "feature/sectors>2048": 30, "feature/both-operands>2048-sectors": 5}},
         "thorough": {"evaluations": 200000, "distinct_nontrivial": 40000, "tables": {"op/tensordot": 80000, "op/transpose": 20000}},
     },
     "exhaustive": {"quick": False, "thorough": False},
@@ -254,7 +254,11 @@ def case_many_sectors(ctx, rng):
     ia = [mk() for _ in range(nleg)]
     ncon = rng.randint(2, 3)
     axa = rng.sample(range(nleg), ncon)
-    ib = [gen.conj_index(sr, ia[i]) for i in axa] + [gen.rand_index(sr, rng, sym, maxc=2, maxd=1) for _ in range(rng.randint(0, 1))]
+    if rng.random() < 0.5:
+        # both operands huge (the library applies some signs to the SMALLER operand)
+        ib = [gen.conj_index(sr, ia[i]) for i in axa] + [mk() for _ in range(nleg - ncon - rng.randint(0, 1))]
+    else:
+        ib = [gen.conj_index(sr, ia[i]) for i in axa] + [gen.rand_index(sr, rng, sym, maxc=2, maxd=1) for _ in range(rng.randint(0, 1))]
     order = rng.sample(range(len(ib)), len(ib))
     ib2 = [ib[k] for k in order]
     axb = [order.index(k) for k in range(ncon)]
@@ -263,6 +267,8 @@ def case_many_sectors(ctx, rng):
     a = gen.make_array(sr, rng, sym, ia, fermionic=True, values=vals, kind=kind, sparsity=0.0, nphase=rng.choice([0, 1]), label=5, exotic=False)
     b = gen.make_array(sr, rng, sym, ib2, fermionic=True, values=vals, kind=kind, sparsity=0.0, nphase=0, label=9, exotic=False)
     ctx.count("feature", "sectors>2048" if max(len(a.blocks), len(b.blocks)) > 2048 else "sectors<=2048")
+    if min(len(a.blocks), len(b.blocks)) > 2048:
+        ctx.count("feature", "both-operands>2048-sectors")
     if rng.random() < 0.5:
         a, b, axa, axb = b, a, axb, axa
     check_contract(ctx, a, b, axa, axb, rng.choice(["fused", "blockwise", "auto", "default"]), "many-sectors")
